@@ -6,9 +6,9 @@ CONSTANTS
   Types = {}
   OpenKinds = {"plain", "sm", "smr", "resumed"}
   Cids = {"fresh"}
-  Attempts = {}
+  Attempts = {"authfail", "bindfail", "userabort", "precut", "abandon"}
   IdRule = "replace"
-  MaxHist = 7
+  MaxHist = 4
 CONSTRAINT SessBound
 ACTION_CONSTRAINT EmitBehaviour
 CHECK_DEADLOCK FALSE
